@@ -17,6 +17,8 @@ def run(chk):
     res = vlib.run_tlc("MC_C01", cfg_text=cfg, timeout=3000, heap="16g")
     chk.add_tlc(res, "MC_C01")
     dt.replay(chk, res.cases, "C01", cli_sample=200 if quick else 2000)
+    from props import diff_long
+    diff_long.run(chk, n=40 if quick else 400)
     # the affects validator itself: every context of blocks x names x touch state x reference shape
     from props import affects_replay as ar
     r2 = vlib.run_tlc("MC_Affects", timeout=3000, heap="16g")
